@@ -26,6 +26,9 @@ def main():
     args = ap.parse_args()
     seed = int(os.environ.get('VERIF_SEED', '0'))
     try:
+        if os.environ.get('VERIF_IMPLCOV') == '1' or (args.tier == 'thorough' and os.environ.get('VERIF_IMPLCOV') != '0' and not args.replay):
+            import implcov
+            implcov.start(common.REPO_SRC)      # before cminx is imported
         import runner
         if args.replay:
             return runner.replay(args.replay)
